@@ -368,15 +368,24 @@ def run_concurrent(ch, ctx, fault):
             inside[0] -= 1
             return ("value", a, calls[a])
 
+        tsc_calls = [0]
+
+        @utils.terminal_size_cached
+        def tsc():
+            tsc_calls[0] += 1
+            k.yield_point("tsc-body")
+            k.yield_point("tsc-body2")
+            return ("tsc", vt.cols, vt.rows, tsc_calls[0])
+
         rounds = ch.int("rounds", 1, 3)
         results = []
         for rnd in range(rounds):
-            which = ch.pick("fn", ("memo", "memo", "colors", "namever", "cell"))
+            which = ch.pick("fn", ("memo", "memo", "tsc", "colors", "namever", "cell"))
             args = [ch.int("arg", 0, 1) for _ in range(ntasks)]
             # enable_queries() racing with first calls: "re-enabling queries discards results
             # obtained while they were disabled" - whatever the interleaving, once both have
             # finished nothing obtained while disabled may be served any more
-            enable_race = which != "memo" and ch.bool("enable_race", 0.35)
+            enable_race = which not in ("memo", "tsc") and ch.bool("enable_race", 0.35)
             # the win-size-swap toggle racing with cell-size computations
             swap_race = which == "cell" and not enable_race and ch.bool("swap_race", 0.4)
             if swap_race:
@@ -408,6 +417,8 @@ def run_concurrent(ch, ctx, fault):
                     got[j] = "toggle win-size swap"
                 elif which == "memo":
                     got[j] = memo(args[j])
+                elif which == "tsc":
+                    got[j] = tsc()
                 elif which == "colors":
                     got[j] = utils.get_fg_bg_colors(hex=bool(args[j]))
                 elif which == "namever":
@@ -472,6 +483,12 @@ def run_concurrent(ch, ctx, fault):
                           "result_obtained_while_queries_disabled_survives",
                           {"function": "get_cell_size", "got": g, "fresh": model.fresh_cell()},
                           "concurrent.enable")
+            elif which == "tsc":
+                check(tsc_calls[0] == 1, "terminal_size_cached_body_ran_more_than_once",
+                      {"count": tsc_calls[0]}, "concurrent.tsc")
+                vals = [got[j] for j in range(ntasks)]
+                check(all(v is vals[0] for v in vals), "callers_got_different_objects",
+                      {"values": vals}, "concurrent.tsc")
             elif which == "memo":
                 for a in set(args):
                     check(calls.get(a, 0) == 1, "memoized_body_ran_more_than_once",
@@ -493,6 +510,8 @@ def run_concurrent(ch, ctx, fault):
             # invalidate at a quiescent point between bursts
             memo._invalidate_cache()
             calls.clear()
+            tsc._invalidate_terminal_size_cache()
+            tsc_calls[0] = 0
             utils.get_fg_bg_colors._invalidate_cache()
             utils.get_terminal_name_version._invalidate_cache()
             with utils._cell_size_lock:
